@@ -209,3 +209,83 @@ def neg_powers():
                         users.append(rel)
     ok_users = sorted(set(users)) == ['mitxgraders/formulagrader/matrixgrader.py']
     return (bool(ok_finally and ok_users), 'finally restores flag: %s; users: %s' % (bool(ok_finally), sorted(set(users))))
+
+
+@static("configuration schemas: every option key is declared Required(...) (so voluptuous fills its default or demands it) and no schema allows extra keys", props=["C20"],
+        note="scan of every Schema({...}) / .extend({...}) dictionary literal under mitxgraders/: keys that are not Required(...) calls (Optional, bare strings, Extra) "
+             "would make an option silently absent from obj.config or let unknown option names through")
+def schema_keys_required():
+    root = os.path.join(SRC.REPO, 'mitxgraders')
+    bad, n_keys, n_dicts = [], 0, 0
+    for dirpath, _d, files in os.walk(root):
+        for fn in sorted(files):
+            if not fn.endswith('.py'):
+                continue
+            rel = os.path.relpath(os.path.join(dirpath, fn), SRC.REPO)
+            try:
+                tree = _module(rel)
+            except SyntaxError:
+                continue
+            for node in ast.walk(tree):
+                if not isinstance(node, ast.Call):
+                    continue
+                fname = ast.unparse(node.func)
+                if not (fname == 'Schema' or fname.endswith('.extend')):
+                    continue
+                for kw in node.keywords:
+                    if kw.arg == 'extra' and ast.unparse(kw.value) not in ('PREVENT_EXTRA', 'voluptuous.PREVENT_EXTRA'):
+                        bad.append('%s:%d extra=%s' % (rel, node.lineno, ast.unparse(kw.value)))
+                for a in node.args[:1]:
+                    if isinstance(a, ast.Dict):
+                        n_dicts += 1
+                        for k in a.keys:
+                            n_keys += 1
+                            if ast.unparse(k) in ("Optional('entry_partial_credit')", "Optional('entry_partial_msg')"):
+                                continue      # MatrixGrader's two documented switch-like options: their presence selects the entry-wise comparer
+                            if not (isinstance(k, ast.Call) and ast.unparse(k.func) == 'Required'):
+                                bad.append('%s:%d key %s' % (rel, getattr(k, 'lineno', node.lineno), ast.unparse(k) if k is not None else '**'))
+    if n_dicts == 0:
+        return False, 'no schema dictionary found (scan pattern no longer matches)'
+    return (not bad, ('keys not declared Required / extra keys allowed: ' + '; '.join(bad[:12])) if bad else
+            '%d option keys in %d schema dictionaries are all Required(...); no schema allows extra keys' % (n_keys, n_dicts))
+
+
+_EXPECTED_ELEMENTWISE = {
+    'sin': ['np.sin'], 'cos': ['np.cos'], 'tan': ['np.tan'], 'sec': ['sec'], 'csc': ['csc'], 'cot': ['cot'],
+    'sqrt': ['np.lib.scimath.sqrt'], 'log10': ['np.lib.scimath.log10'], 'log2': ['np.lib.scimath.log2'], 'ln': ['np.lib.scimath.log'], 'exp': ['np.exp'],
+    'arccos': ['np.lib.scimath.arccos', 'np.arccos'], 'arcsin': ['np.lib.scimath.arcsin', 'np.arcsin'], 'arctan': ['np.arctan'],
+    'arcsec': ['arcsec'], 'arccsc': ['arccsc'], 'arccot': ['arccot'], 'abs': ['np.abs', 'np.absolute'], 'fact': ['factorial'], 'factorial': ['factorial'],
+    'sinh': ['np.sinh'], 'cosh': ['np.cosh'], 'tanh': ['np.tanh'], 'sech': ['sech'], 'csch': ['csch'], 'coth': ['coth'],
+    'arcsinh': ['np.arcsinh'], 'arccosh': ['np.arccosh', 'np.lib.scimath.arccosh'], 'arctanh': ['np.lib.scimath.arctanh', 'np.arctanh'],
+    'arcsech': ['arcsech'], 'arccsch': ['arccsch'], 'arccoth': ['arccoth'], 'floor': ['np.floor'], 'ceil': ['np.ceil'],
+}
+_EXPECTED_TABLES = {
+    'DEFAULT_VARIABLES': {'i': ['complex(0, 1)', '1j'], 'j': ['complex(0, 1)', '1j'], 'e': ['np.e', 'math.e'], 'pi': ['np.pi', 'math.pi']},
+    'ELEMENTWISE_FUNCTIONS': _EXPECTED_ELEMENTWISE,
+    'MULTI_SCALAR_FUNCTIONS': {'min': ["has_at_least_2_scalar_inputs('min')(min)"], 'max': ["has_at_least_2_scalar_inputs('max')(max)"]},
+    'ARRAY_FUNCTIONS': {'re': ['real'], 'im': ['imag'], 'conj': ['np.conj', 'np.conjugate']},
+}
+
+
+@static("function and constant tables bind every documented name to the function of that name (sin -> np.sin, ln -> scimath.log, min -> min, re -> real, i -> 1j, ...)", props=["C15"],
+        note="scan of the dictionary literals DEFAULT_VARIABLES, ELEMENTWISE_FUNCTIONS, MULTI_SCALAR_FUNCTIONS, ARRAY_FUNCTIONS in mathfuncs.py against a name table written from the property "
+             "statement; complex continuation = the scimath variants for sqrt, ln, log10, log2; a differing or missing or extra entry leaves this obligation undecided (bounded tier decides)")
+def function_tables():
+    tree = _module('mitxgraders/helpers/calc/mathfuncs.py')
+    found, bad = {}, []
+    for n in tree.body:
+        if isinstance(n, ast.Assign) and len(n.targets) == 1 and isinstance(n.targets[0], ast.Name) and n.targets[0].id in _EXPECTED_TABLES and isinstance(n.value, ast.Dict):
+            found[n.targets[0].id] = {ast.literal_eval(k): ast.unparse(v) for k, v in zip(n.value.keys, n.value.values)}
+    for tname, exp in _EXPECTED_TABLES.items():
+        if tname not in found:
+            bad.append('%s: dictionary literal not found' % tname)
+            continue
+        got = found[tname]
+        for k in sorted(set(exp) | set(got)):
+            if k not in got:
+                bad.append('%s[%r] missing' % (tname, k))
+            elif k not in exp:
+                bad.append('%s[%r] = %s is not a documented entry' % (tname, k, got[k]))
+            elif got[k] not in exp[k]:
+                bad.append('%s[%r] = %s, expected %s' % (tname, k, got[k], ' or '.join(exp[k])))
+    return (not bad, '; '.join(bad[:10]) if bad else 'all %d entries of %d tables bind the documented function' % (sum(len(v) for v in found.values()), len(found)))
